@@ -26,7 +26,7 @@ import (
 // A tree that writes to a temporary file and renames it is judged on exactly those system calls.
 
 // c04CacheScenario drives a sequencer node so that its caches are non-empty; save=true saves them (clean stop).
-func c04CacheScenario(t *testing.T, root string, disk **sim.Disk, marker func() bool) {
+func c04CacheScenario(t *testing.T, root string, disk **sim.Disk, first bool, marker func() bool) {
 	p := sim.Bubble(t, func() {
 		w := sim.NewWorld(t, "c04cache", 1)
 		defer w.Close()
@@ -45,7 +45,9 @@ func c04CacheScenario(t *testing.T, root string, disk **sim.Disk, marker func() 
 			if i == 1 {
 				r.exec(sim.Op{K: "subh", A: 0}, -1)
 				r.exec(sim.Op{K: "subd", A: 0}, -1)
-				_ = n.M.SaveCache() // an earlier clean shutdown left these files behind
+				if !first {
+					_ = n.M.SaveCache() // an earlier clean shutdown left these files behind
+				}
 			}
 		}
 		r.exec(sim.Op{K: "subh", A: 0}, -1)
@@ -74,7 +76,7 @@ func TestC04CacheChild(t *testing.T) {
 	if root == "" {
 		t.Skip("child only")
 	}
-	c04CacheScenario(t, root, nil, func() bool {
+	c04CacheScenario(t, root, nil, os.Getenv("VERIF_C04_CHILD_FIRST") == "1", func() bool {
 		_ = os.WriteFile(filepath.Join(root, "MARKER"), []byte("x"), 0o644)
 		return false
 	})
@@ -236,7 +238,7 @@ func (d dirImage) writeTo(root string) {
 }
 
 // c04CacheStates runs the strace recording and returns the directory image before the save, the crash states and a description.
-func c04CacheStates(t *testing.T) (base dirImage, states []dirImage, labels []string, desc string, err error) {
+func c04CacheStates(t *testing.T, first bool) (base dirImage, states []dirImage, labels []string, desc string, err error) {
 	if _, e := exec.LookPath("strace"); e != nil {
 		return nil, nil, nil, "", fmt.Errorf("strace not available")
 	}
@@ -254,7 +256,7 @@ func c04CacheStates(t *testing.T) (base dirImage, states []dirImage, labels []st
 	trace := filepath.Join(tmp, "trace.txt")
 	cmd := exec.Command("strace", "-f", "-xx", "-s", "1000000", "-e", "trace=openat,write,close,rename,renameat,renameat2,unlink,unlinkat", "-o", trace,
 		exe, "-test.run", "^TestC04CacheChild$", "-test.count", "1")
-	cmd.Env = append(os.Environ(), "VERIF_C04_CHILD_ROOT="+root, "GOMAXPROCS=2")
+	cmd.Env = append(os.Environ(), "VERIF_C04_CHILD_ROOT="+root, "GOMAXPROCS=2", "VERIF_C04_CHILD_FIRST="+map[bool]string{true: "1", false: "0"}[first])
 	if out, e := cmd.CombinedOutput(); e != nil {
 		return nil, nil, nil, "", fmt.Errorf("strace child failed: %v: %s", e, string(out[:min(len(out), 400)]))
 	}
@@ -269,7 +271,7 @@ func c04CacheStates(t *testing.T) (base dirImage, states []dirImage, labels []st
 	// which we obtain from a second child-less run that stops at the marker.
 	beforeRoot := filepath.Join(tmp, "before")
 	_ = os.MkdirAll(beforeRoot, 0o755)
-	c04CacheScenarioUntilMarker(t, beforeRoot)
+	c04CacheScenarioUntilMarker(t, beforeRoot, first)
 	base = readImage(beforeRoot)
 	rel := func(p string) string { r, _ := filepath.Rel(root, p); return r }
 	cur := base.clone()
@@ -323,49 +325,61 @@ func c04CacheStates(t *testing.T) (base dirImage, states []dirImage, labels []st
 			return nil, nil, nil, "", fmt.Errorf("replayed operations do not reproduce the final image for %s (%d vs %d bytes)", k, len(cur[k]), len(v))
 		}
 	}
-	desc = fmt.Sprintf("%d file operations (%d writes) recorded with strace from the real SaveCache; %d crash states (every prefix, plus cuts inside each write at 1, n/2, n-1 and page multiples)", len(ops), nw, len(states))
+	which := "a later save (files of an earlier clean shutdown exist)"
+	if first {
+		which = "the node's first save (no cache files yet)"
+	}
+	desc = fmt.Sprintf(which+": %d file operations (%d writes) recorded with strace from the real SaveCache; %d crash states (every prefix, plus cuts inside each write at 1, n/2, n-1 and page multiples)", len(ops), nw, len(states))
 	return base, states, labels, desc, nil
 }
 
 // c04CacheScenarioUntilMarker runs the scenario but dies instead of saving at the marker.
-func c04CacheScenarioUntilMarker(t *testing.T, root string) {
-	c04CacheScenario(t, root, nil, func() bool { return true })
+func c04CacheScenarioUntilMarker(t *testing.T, root string, first bool) {
+	c04CacheScenario(t, root, nil, first, func() bool { return true })
 }
 
 // c04CacheCheck restarts the node on every crash state; returns an outcome per state through run.
 func c04CacheEnumerate(t *testing.T) func(tier string, run func(*sim.Scn) *sim.Outcome) string {
 	return func(tier string, run func(*sim.Scn) *sim.Outcome) string {
 		start := time.Now()
-		_, states, labels, desc, err := c04CacheStates(t)
-		if err != nil {
-			fmt.Printf("note: cache-file crash states not enumerated: %v\n", err)
-			return "cache-file crash states: NOT enumerated in this run (" + err.Error() + ")"
-		}
-		c04CacheImages, c04CacheLabels = states, labels
-		for i := range states {
-			run(&sim.Scn{Cfg: map[string]int64{"cachestate": int64(i + 1)}})
+		desc := ""
+		for fi, first := range []bool{false, true} {
+			_, states, labels, d, err := c04CacheStates(t, first)
+			if err != nil {
+				fmt.Printf("note: cache-file crash states not enumerated: %v\n", err)
+				return "cache-file crash states: NOT enumerated in this run (" + err.Error() + ")"
+			}
+			c04CacheImages[fi], c04CacheLabels[fi] = states, labels
+			for i := range states {
+				run(&sim.Scn{Cfg: map[string]int64{"cachestate": int64(i + 1), "firstsave": int64(fi)}})
+			}
+			desc += d + "; "
 		}
 		return desc + fmt.Sprintf("; %.1f s", time.Since(start).Seconds())
 	}
 }
 
 var (
-	c04CacheImages []dirImage
-	c04CacheLabels []string
+	c04CacheImages [2][]dirImage // [0] later save, [1] first save
+	c04CacheLabels [2][]string
 )
 
 // c04CacheRun starts a node whose DB is the image after a clean shutdown and whose cache directory is crash state i.
-func c04CacheRun(t *testing.T, idx int, o *sim.Outcome) {
-	if len(c04CacheImages) == 0 {
+func c04CacheRun(t *testing.T, idx int, fi int, o *sim.Outcome) {
+	first := fi == 1
+	if len(c04CacheImages[fi]) == 0 {
 		// replay in a fresh process: record the crash states again (the history is deterministic)
-		if _, states, labels, _, err := c04CacheStates(t); err == nil {
-			c04CacheImages, c04CacheLabels = states, labels
+		if _, states, labels, _, err := c04CacheStates(t, first); err == nil {
+			c04CacheImages[fi], c04CacheLabels[fi] = states, labels
 		}
 	}
-	if idx < 1 || idx > len(c04CacheImages) {
+	if idx < 1 || idx > len(c04CacheImages[fi]) {
 		return
 	}
-	img, label := c04CacheImages[idx-1], c04CacheLabels[idx-1]
+	img, label := c04CacheImages[fi][idx-1], c04CacheLabels[fi][idx-1]
+	if first {
+		label = "first save, " + label
+	}
 	root, err := os.MkdirTemp("", "verif-c04state-")
 	if err != nil {
 		panic(err)
@@ -375,7 +389,7 @@ func c04CacheRun(t *testing.T, idx int, o *sim.Outcome) {
 	// the durable DB image of the same (deterministic) history
 	dbRoot, _ := os.MkdirTemp("", "verif-c04db-")
 	defer os.RemoveAll(dbRoot)
-	c04CacheScenario(t, dbRoot, &disk, nil)
+	c04CacheScenario(t, dbRoot, &disk, first, nil)
 	img.writeTo(root)
 	p := sim.Bubble(t, func() {
 		w := sim.NewWorld(t, "c04cache", 1)
